@@ -195,6 +195,11 @@ def verify_unit(unit, tier):
     for pf in sorted(os.listdir(os.path.join(VERIF, 'units'))):
         if pf.startswith('prelude_') and pf.endswith('.rs'):
             allowed |= set(scan_assumptions(open(os.path.join(VERIF, 'units', pf)).read()))
+    declared = {}
+    for m in re.finditer(r'^\s*//@assume\s+(\S+\s+\S+)\s*(?:[-—:]+\s*(.*))?$', open(template).read(), re.M):
+        declared[m.group(1)] = m.group(2) or ''
+    allowed |= set(declared)
+    res['declared_assumptions'] = declared
     res['imports'] = sorted(set(a.split('proved in unit ')[1].rstrip(')') for a in res['assumptions'] if a.startswith('imported-contract')))
     extra = [a for a in res['assumptions'] if a not in allowed and not a.startswith('imported-contract')]
     if extra:
